@@ -325,6 +325,10 @@ def sim_init(sim, spec, modes, world, scenario, cfg):
     sim.classes = set()
     sim.steps_total = 0
     sim.progress = 0
+    sim.gstep_outputs = {}
+    sim.gstep_ops = []
+    sim.shadow = None
+    sim.shadow_spec = None
     if scenario is None:
         try:
             scenario, cfg = configs.build(spec)
